@@ -109,7 +109,7 @@ theorem pres_call (hC : PresCtx cx p S T) (ih : PresAll cx p S T fuel) {cur : Op
     (hw : wtR K bc rc n (.call f args) = true)
     (h : eval ⟨cx, p, cur⟩ (fuel + 1) (.call f args) w = (r, w')) : Keep S w w' := by
   simp only [wtR, Bool.and_eq_true] at hw
-  obtain ⟨⟨_, hallow⟩, hwa⟩ := hw
+  obtain ⟨⟨⟨_, hallow⟩, hwa⟩, _⟩ := hw
   obtain ⟨l, hl, hlT⟩ := hK.calls
   rw [hl] at hallow
   simp only [List.contains_eq_mem, decide_eq_true_eq] at hallow
@@ -161,6 +161,7 @@ theorem presAll_succ (hC : PresCtx cx p S T) (ih : PresAll cx p S T fuel) : Pres
     | err => simp only [eval] at h; cases h; exact .refl _ _
     | prim op imms args =>
       simp only [wtR, Bool.and_eq_true] at hw
+      replace hw := hw.1
       cases hsig : primSigK K op with
       | none => rw [hsig] at hw; exact absurd hw.1 (by simp)
       | some kp =>
@@ -177,6 +178,7 @@ theorem presAll_succ (hC : PresCtx cx p S T) (ih : PresAll cx p S T fuel) : Pres
         | _ => simp only [] at h; cases h; exact k1
     | store v e =>
       simp only [wtR, Bool.and_eq_true, Bool.not_eq_true', List.contains_eq_mem, decide_eq_false_iff_not] at hw
+      replace hw := hw.1
       simp only [eval] at h
       split at h
       · cases h; exact (one e hw.2 _ _ (by assumption)).trans (keep_set hC hK hw.1.2)
@@ -184,6 +186,7 @@ theorem presAll_succ (hC : PresCtx cx p S T) (ih : PresAll cx p S T fuel) : Pres
       · exact one e hw.2 _ _ h
     | multi op imms args outs =>
       simp only [wtR, Bool.and_eq_true] at hw
+      replace hw := hw.1
       cases hsig : primSigK { K with dyn := false } op with
       | none => rw [hsig] at hw; exact absurd hw.1.1.2 (by simp)
       | some kp =>
@@ -444,19 +447,20 @@ theorem callInv_fp_of {P : PCtx} (hfp : P.fp = true) (hdyn : P.dyn = false) (hpn
     (hsubs : ∀ f sd, findSub P.p f = some sd → Present P f → subOkC true P.p sd = true)
     (hreach : ∀ f0 sd0, findSub P.p f0 = some sd0 → Present P f0 → ∀ g ∈ okCallsOf P.p sd0,
       sd0.reenters.contains g = false → ∀ h ∈ reachSet P.p g, Present P h) : CallInv P := by
-  intro X cfg K cur hR f sd st w1 fuel r3 w3 hsd hallow hlen hev hinv
+  intro X cfg K cur hR f sd st w1 fuel r3 w3 hsd hallow hlen hev hinv _
+  have hsref : P.sref = false := by simp [PCtx.sref, hfp]
   have hpnd' : (P.p.subs.flatMap (fun sd => sd.params.map (·.2))).Nodup := nodupB_nodup _ hpnd
   cases hR with
-  | main _ _ _ hi => rw [hi]; trivial
+  | main _ _ _ hi => rw [hi, PCtx.vinv, hsref]; trivial
   | sub _ hfp' => rw [hfp] at hfp'; cases hfp'
-  | @subFp f0 sd0 fr cs' st0 σc hpg hfp0 hsd0 hr0 hcs hpr hbase hl0 hh hign hi hdev0 =>
-    have hpres0 : Present P f0 := RoutOK.present (.subFp hpg hfp0 hsd0 hr0 hcs hpr hbase hl0 hh hign hi hdev0)
+  | @subFp f0 sd0 fr cs' st0 σc hpg hfp0 hsd0 hr0 hcs hpr hbase hl0 hh hign hi hdev0 hprot0 =>
+    have hpres0 : Present P f0 := RoutOK.present (.subFp hpg hfp0 hsd0 hr0 hcs hpr hbase hl0 hh hign hi hdev0 hprot0)
     rw [hi] at hinv ⊢
     have hmem0 : sd0 ∈ P.p.subs := List.mem_of_find?_eq_some hsd0
     have hok0 := hsubs f0 sd0 hsd0 hpres0
     simp only [subOkC, Bool.and_eq_true, List.all_eq_true, Bool.not_true, Bool.false_or, List.contains_eq_mem,
       decide_eq_true_eq] at hok0
-    have hploc : ∀ kv ∈ sd0.params, kv.2 ∈ sd0.locals := hok0.2
+    have hploc : ∀ kv ∈ sd0.params, kv.2 ∈ sd0.locals := hok0.1.2
     intro pr hprm
     have hs0 : pr.1 ∈ sd0.params.map (·.2) := (List.of_mem_zip hprm).1
     obtain ⟨kv0, hkv0, hkv02⟩ := List.mem_map.mp hs0
@@ -494,7 +498,7 @@ theorem callInv_fp_of {P : PCtx} (hfp : P.fp = true) (hdyn : P.dyn = false) (hpn
                       decide_eq_true_eq, Bool.not_eq_true', decide_eq_false_iff_not]; exact hallow0)
                 hre' g hg)
               simp only [subOkC, Bool.and_eq_true] at hokg
-              refine ⟨sdg, rfl, hokg.1.1.1.1.1.1.1, fun g' hg' => ?_, fun kv hkv hin => ?_⟩
+              refine ⟨sdg, rfl, hokg.1.1.1.1.1.1.1.1, fun g' hg' => ?_, fun kv hkv hin => ?_⟩
               · simp only [okCallsOf, List.mem_filter] at hg'
                 exact hcg g' hg'.1
               · have hne : sdg ≠ sd0 := by
